@@ -452,44 +452,42 @@ func NullableAltNotLast(g *Grammar) bool {
 }
 
 // HubLRGen draws one big left-recursive component with thousands of cycles (the analysis
-// enumerates them all): two hub rules H1 < H2 (by name), k = 10..12 rules P_i that refer
-// forward to every later P_j, H1 <- P_i .., P_i <- .. / H2 .., H2 <- H1 x / W y / b,
-// W <- H2 z. Every cycle through the P_i passes both hubs; the short cycle H2 - W - H2 is the
-// only one that does not contain H1, so H2 is the one rule on every cycle (the leader) - a
-// verdict that needs every one of the 2^k cycles to be looked at. Some forward edges are
-// dropped and the names vary, so that no two cases share their numbers.
+// enumerates them all): two hub rules H1 < H2 (by name) and k = 10..12 rules P_i that refer
+// forward to every later P_j:
+//
+//	H2 <- P_0 t / W t / b      W <- H2 t      H1 <- H2 t      P_i <- P_j t (j > i) / ... / H1 t
+//
+// Every cycle through the P_i passes both hubs; the short cycle H2 - W - H2 is the only one
+// that does not contain H1, so H2 is the one rule on every cycle (the leader) - a verdict that
+// needs every one of the 2^(k-1) paths to be looked at. Some forward edges are dropped, the
+// names and the order of the rules in the file vary, so that no two cases share their numbers.
 func HubLRGen() *rapid.Generator[*Grammar] {
 	return rapid.Custom(func(t *rapid.T) *Grammar {
 		k := []int{10, 10, 10, 11, 11, 11, 12, 12}[U(t, 8, "hubk")]
 		h1, h2, w := "Access", "Value", "Wrap"
+		p := func(i int) string { return fmt.Sprintf("P%02d", i) }
 		if U(t, 2, "hubnames") == 0 {
 			h1, h2, w = "A", "M", "Z"
-		}
-		p := func(i int) string { return fmt.Sprintf("P%02d", i) }
-		if h1 == "A" {
 			p = func(i int) string { return fmt.Sprintf("N%02d", i) }
 		}
-		tail := func(s string) *Expr { return Lit(s) }
 		g := &Grammar{Pkg: "p", Profile: "lrhunt"}
-		var alts []*Expr
-		for j := 0; j < k; j++ {
-			alts = append(alts, Seq(Ref(p(j)), tail("a")))
-		}
-		alts = append(alts, Lit("b"))
-		g.Rules = append(g.Rules, &Rule{Name: h1, Expr: Choice(alts...)})
+		g.Rules = append(g.Rules,
+			&Rule{Name: h2, Expr: Choice(Seq(Ref(p(0)), Lit("!")), Seq(Ref(w), Lit(")")), Lit("b"))},
+			&Rule{Name: w, Expr: Seq(Ref(h2), Lit("("))},
+			&Rule{Name: h1, Expr: Seq(Ref(h2), Lit("."))})
 		for i := 0; i < k; i++ {
 			var as []*Expr
 			for j := i + 1; j < k; j++ {
 				if U(t, 30, "dropedge") != 0 {
-					as = append(as, Seq(Ref(p(j)), tail("a")))
+					as = append(as, Seq(Ref(p(j)), Lit("a")))
 				}
 			}
-			as = append(as, Seq(Ref(h2), tail("v")), Lit("b"))
+			as = append(as, Seq(Ref(h1), Lit("v")))
+			if len(as) == 1 {
+				as = append(as, Lit("b"))
+			}
 			g.Rules = append(g.Rules, &Rule{Name: p(i), Expr: Choice(as...)})
 		}
-		g.Rules = append(g.Rules,
-			&Rule{Name: h2, Expr: Choice(Seq(Ref(h1), tail("x")), Seq(Ref(w), tail("y")), Lit("b"))},
-			&Rule{Name: w, Expr: Seq(Ref(h2), tail("z"))})
 		// rule order in the file is drawn too (the hubs first, last or in the middle)
 		if U(t, 2, "hubrotate") == 0 {
 			r := 1 + U(t, len(g.Rules)-1, "hubrot")
